@@ -464,7 +464,7 @@ def run_shard(desc):
     r = random.Random(desc['seed'] * 31337 + desc['shard'])
     cases = cases_for(1) + cases_for(2)
     # random definitions from the C01 grammar are legal by construction: they widen the 'legal accepted + encodes' side
-    for i in range(40 if desc['tier'] == 'quick' else 1500):
+    for i in range(160 if desc['tier'] == 'quick' else 30000):
         afi, safi = r.choice(c01.FAMS)
         text, intent = gt.gen_route(r, afi, c01.KIND[safi], rich=0.6, with_pathid=r.random() < 0.4, allow_self=False)
         cases.append({'field': 'grammar', 'pos': c01.KIND[safi], 'legal': True, 'text': text, 'intent': intent, 'afi': afi})
